@@ -5,12 +5,92 @@ package main
 // the preamble.
 
 import (
+	"fmt"
 	"os"
 	"path/filepath"
 	"strings"
 )
 
-func lemmaObligations(verif string, files []string) ([]*Obligation, []string) {
+// recText returns the SMT declarations and defining axioms of the named
+// recursive spec functions / predicates exactly as Level 1 emits them.
+func (eng *Engine) recText(pkgSuffix string, names []string) ([]string, error) {
+	ex := newExec(eng, "lemma-export")
+	pkg := eng.pkgBySuffix(pkgSuffix)
+	if pkg == nil {
+		return nil, fmt.Errorf("unknown package %q", pkgSuffix)
+	}
+	st := newState()
+	q := 0
+	env := &SpecEnv{ex: ex, cur: st, vars: map[string]Val{}, pkg: pkg, qn: &q}
+	start := ex.sc.pos()
+	var err error
+	func() {
+		defer func() {
+			if r := recover(); r != nil {
+				err = fmt.Errorf("%v", r)
+			}
+		}()
+		for _, n := range names {
+			pd := eng.specs.Preds[n]
+			if pd == nil {
+				panic("no spec function " + n)
+			}
+			// apply the function to fresh arguments to force its declaration
+			var args []*Node
+			for i, p := range pd.Params {
+				nm := fmt.Sprintf("exp_%s_%d", n, i)
+				t := env.resolveType(p.Type)
+				if t == nil {
+					env.vars[nm] = mathInt(ex.sc.fresh(nm, sInt))
+				} else {
+					env.vars[nm] = ex.freshVal(nil, t, nm)
+				}
+				args = append(args, &Node{Kind: "ident", Name: nm})
+			}
+			if pd.Rec {
+				env.evalRec(pd, args)
+			} else {
+				// plain spec function: export as define-fun over its scalar parameters
+				var binders []string
+				c := env.child()
+				for _, p := range pd.Params {
+					t := env.resolveType(p.Type)
+					srt := sInt
+					if t != nil {
+						srt = flatten(t)[0].Sort
+					}
+					b := "a_" + p.Name
+					binders = append(binders, "("+b+" "+srt+")")
+					if t == nil {
+						c.vars[p.Name] = mathInt(b)
+					} else {
+						c.vars[p.Name] = Val{T: t, L: []string{b}}
+					}
+				}
+				ex.sc.pure++
+				body := c.eval(pd.Body)
+				ex.sc.pure--
+				ret := sInt
+				if body.isBool() {
+					ret = sBool
+				}
+				ex.sc.emit("(define-fun spec_" + n + " (" + strings.Join(binders, " ") + ") " + ret + " " + body.L[0] + ")")
+			}
+		}
+	}()
+	if err != nil {
+		return nil, err
+	}
+	var out []string
+	for _, l := range ex.sc.lines[start:] {
+		if strings.Contains(l, "rec_") || strings.HasPrefix(l, "(define-fun spec_") {
+			out = append(out, l)
+		}
+	}
+	return out, nil
+}
+
+func (eng *Engine) lemmaObligations(verif string, files []string) ([]*Obligation, []string) {
 	var out []*Obligation
 	var errs []string
 	for _, f := range files {
@@ -32,6 +112,27 @@ func lemmaObligations(verif string, files []string) ([]*Obligation, []string) {
 			out = append(out, &Obligation{Name: "lemma/" + filepath.Base(f) + "/" + name, Kind: "lemma", Desc: "Level-2 lemma " + name, Unit: f, Raw: raw, Tags: tags})
 		}
 		for _, line := range strings.Split(string(data), "\n") {
+			if strings.HasPrefix(line, ";; USE-SPEC ") {
+				// ;; USE-SPEC <package suffix or .> name1 name2 ...
+				f := strings.Fields(strings.TrimPrefix(line, ";; USE-SPEC "))
+				pk := f[0]
+				if pk == "." {
+					pk = ""
+				}
+				txt, err := eng.recText(pk, f[1:])
+				if err != nil {
+					errs = append(errs, "lemma file "+fpath(f)+": "+err.Error())
+					continue
+				}
+				pre = append(pre, txt...)
+				continue
+			}
+			if strings.HasPrefix(line, ";; PREAMBLE") {
+				flush()
+				name = ""
+				cur = nil
+				continue
+			}
 			if strings.HasPrefix(line, ";; GOAL ") {
 				flush()
 				name = strings.TrimSpace(strings.TrimPrefix(line, ";; GOAL "))
@@ -48,9 +149,11 @@ func lemmaObligations(verif string, files []string) ([]*Obligation, []string) {
 			}
 		}
 		flush()
-		if name == "" {
+		if len(out) == 0 {
 			errs = append(errs, "lemma file has no goals: "+f)
 		}
 	}
 	return out, errs
 }
+
+func fpath(f []string) string { return strings.Join(f, " ") }
